@@ -1097,6 +1097,11 @@ class PTA:
             self.add(('L', q, names[0]), [recv])
             supplied.add(names[0])
             i0 = 1
+        elif fn.cls is not None and fn.is_classmethod and names:
+            # C.m(...) / obj.m(...) of a class method: the first parameter is the class
+            self.add(('L', q, names[0]), [self.cls_obj(fn.cls)])
+            supplied.add(names[0])
+            i0 = 1
         elif fn.cls is not None and not fn.is_static and recv is None and names:
             # unbound call C.m(obj, ...): first positional is self
             i0 = 0
@@ -1344,6 +1349,10 @@ class PTA:
                 if els:
                     self.add(('F', n, '[]'), els)
                 return {n}
+            if name == 'get' and recv.kind == 'dict':
+                # a dict allocated in the analysed code hands back what was stored in it (or the supplied default)
+                els = self.elems(recv, None, False)
+                return set(els) | (set(pos[1]) if len(pos) > 1 else set()) | set(kwargs.get('default', ()))
             if name in ('get', 'values', 'items', 'keys', 'item', '__getitem__'):
                 return self.elems(recv, None, False) | {self.alloc('ext', node, tag='res')}
             if name not in PURE_METHODS:
